@@ -223,14 +223,163 @@ fn oracle(out: &mut Out, bytes: &[u8], op: &str) -> String {
 }
 
 pub fn one(out: &mut Out, line: &str) {
+    let p: Vec<&str> = line.split_whitespace().collect();
+    if let ["timedc", cfg, dt, k, h] = p.as_slice() {
+        match (unhex(h), k.parse::<usize>()) {
+            (Some(f), Ok(k)) if ["u", "0", "1"].contains(cfg) && ["n", "s"].contains(dt) => timedc(out, cfg, dt, k, &f),
+            _ => out.notes.push(format!("bad replay line: {line}")),
+        }
+        return;
+    }
     crate::c01::one_with(out, line, oracle)
 }
 
+// ------------------------------------------------------------------------------------------------
+// The record under each serialisation configuration.
+//
+// `TimedMessage.decode_time` is skipped by `skip_serialize_decode_time`, which reads the process-wide, write-once
+// `static CONFIG: OnceCell<SerializeConfig>` (`serialize_config(b)`; a second call panics).  Three states: never set
+// (`u`), `serialize_config(false)` (`0`), `serialize_config(true)` (`1`, jet1090 --stats).  One PROCESS per state:
+// the parent never sets the configuration and runs the `u` cases itself; the `0` and `1` cases are replayed by a
+// child (this executable, `replay`, env C07_TIMED_CHILD), whose op lines, answers and oracle failures are merged
+// into the parent's.  `timedc <u|0|1> <n|s> <k> <hex>`: configuration, decode_time None / Some(0.000125), k reception
+// records, frame.
+// ------------------------------------------------------------------------------------------------
+
+/// configuration state of THIS process: 0 never set, 1 set(false), 2 set(true)
+static CFG_STATE: std::sync::atomic::AtomicU8 = std::sync::atomic::AtomicU8::new(0);
+
+/// bring this process into configuration `cfg` if that is still possible
+fn ensure_cfg(cfg: &str) -> bool {
+    use std::sync::atomic::Ordering::SeqCst;
+    let want = match cfg {
+        "u" => 0,
+        "0" => 1,
+        _ => 2,
+    };
+    let cur = CFG_STATE.load(SeqCst);
+    if cur == want {
+        return true;
+    }
+    if cur != 0 {
+        return false;
+    }
+    rs1090::decode::serialize_config(want == 2);
+    CFG_STATE.store(want, SeqCst);
+    true
+}
+
+/// the k-th reception record (mirrored by `Driver/C07.lean`, `sensor`)
+fn sensor(i: usize) -> SensorMetadata {
+    SensorMetadata {
+        system_timestamp: 1_700_000_000.5,
+        gnss_timestamp: if i == 0 { Some(12.5) } else { None },
+        nanoseconds: if i == 1 { Some(123_456_789) } else { None },
+        rssi: if i == 0 { Some(-12.5) } else { None },
+        serial: 42 + i as u64,
+        name: if i == 0 { Some("rx\"1".to_string()) } else { None },
+    }
+}
+
+fn timedc(out: &mut Out, cfg: &str, dt: &str, k: usize, f: &[u8]) {
+    let op = format!("timedc {cfg} {dt} {k} {}", hex(f));
+    let in_child = std::env::var("C07_TIMED_CHILD").is_ok();
+    if cfg != "u" && !in_child {
+        run_children(out, cfg, &[op]);
+        return;
+    }
+    if !ensure_cfg(cfg) {
+        out.fail("timed-config-state", &op, "this process already has another serialisation configuration");
+        return;
+    }
+    let Some(Ok(m)) = guarded(|| Message::try_from(f)) else {
+        out.case(&op, "err");
+        return;
+    };
+    let Some(Ok(mj)) = guarded(|| serde_json::to_string(&m)) else { return }; // judged by `dec`
+    let tm = TimedMessage {
+        timestamp: 1.5,
+        frame: f.to_vec(),
+        message: Some(m.clone()),
+        metadata: (0..k).map(sensor).collect(),
+        decode_time: if dt == "s" { Some(0.000125) } else { None },
+    };
+    match guarded(|| serde_json::to_string(&tm)) {
+        None => out.fail("ser-panic", &op, "TimedMessage serialisation panicked"),
+        Some(Err(e)) => out.fail("not-serialisable", &op, &format!("TimedMessage: {e}")),
+        Some(Ok(tj)) => {
+            out.case(&op, &format!("ok {}", canon_json(&tj)));
+            match (serde_json::from_str::<serde_json::Value>(&tj), serde_json::from_str::<serde_json::Value>(&mj)) {
+                (Ok(tv), Ok(v)) => {
+                    if tj.contains('\n') {
+                        out.fail("not-one-line", &op, "TimedMessage: line break in the record");
+                    }
+                    if let Err(key) = dup_key(&tj) {
+                        out.fail("duplicate-key", &op, &format!("TimedMessage: key {key} twice"));
+                    }
+                    // shown exactly under serialize_config(true) when the field is Some
+                    let want = if cfg == "1" { tm.decode_time } else { None };
+                    if tv.get("decode_time").and_then(|x| x.as_f64()) != want || (want.is_none() && tv.get("decode_time").is_some()) {
+                        out.fail("decode-time-shown", &op, &format!("decode_time shown as {:?}, want {want:?}", tv.get("decode_time")));
+                    }
+                    if tv.get("metadata").and_then(|x| x.as_array()).map(|a| a.len()) != Some(k) {
+                        out.fail("timed-record-differs", &op, "metadata");
+                    }
+                    if tv.get("frame").and_then(|x| x.as_str()) != Some(hex(f).as_str()) {
+                        out.fail("frame-not-kept", &op, &format!("frame shown as {:?}", tv.get("frame")));
+                    }
+                    if let (Some(o), Some(t)) = (v.as_object(), tv.as_object()) {
+                        if let Some((key, _)) = o.iter().find(|(key, val)| t.get(*key) != Some(val)) {
+                            out.fail("timed-record-differs", &op, &format!("key {key}"));
+                        }
+                    }
+                    out.stat(&format!("timedc:cfg-{cfg}:dt-{dt}"));
+                }
+                _ => out.fail("json-does-not-parse", &op, "TimedMessage"),
+            }
+        }
+    }
+}
+
+/// replay `lines` (all of configuration `cfg`) in a fresh process and merge what it found
+fn run_children(out: &mut Out, cfg: &str, lines: &[String]) {
+    static SEQ: std::sync::atomic::AtomicU32 = std::sync::atomic::AtomicU32::new(0);
+    let n = SEQ.fetch_add(1, std::sync::atomic::Ordering::SeqCst);
+    let dir = format!("{}/timedc-{cfg}-{n}", out.dir);
+    let what = format!("timedc {cfg} ({} lines)", lines.len());
+    if std::fs::create_dir_all(&dir).is_err() {
+        out.fail("timed-child-failed", &what, "cannot create the child's directory");
+        return;
+    }
+    let file = format!("{dir}/in.txt");
+    let started = std::fs::write(&file, lines.join("\n") + "\n").ok().and_then(|_| std::env::current_exe().ok()).and_then(|exe| {
+        std::process::Command::new(exe).args(["replay", &file, &dir]).env("C07_TIMED_CHILD", cfg).status().ok()
+    });
+    if !started.map_or(false, |s| s.success()) {
+        out.fail("timed-child-failed", &what, "the child process did not run to completion");
+        return;
+    }
+    let rd = |n: &str| std::fs::read_to_string(format!("{dir}/{n}")).unwrap_or_default();
+    let (ops, imp) = (rd("ops.txt"), rd("impl.txt"));
+    let (ops, imp): (Vec<&str>, Vec<&str>) = (ops.lines().collect(), imp.lines().collect());
+    if ops.len() != imp.len() {
+        out.fail("timed-child-failed", &what, "the child's op and answer files differ in length");
+        return;
+    }
+    for (o, i) in ops.iter().zip(imp.iter()) {
+        out.case(o, i);
+    }
+    for l in rd("oracle.jsonl").lines() {
+        if let Ok(j) = serde_json::from_str::<serde_json::Value>(l) {
+            let g = |k: &str| j.get(k).and_then(|x| x.as_str()).unwrap_or("").to_string();
+            out.fail(&g("class"), &g("input"), &g("detail"));
+        }
+    }
+    out.stat_n(&format!("timedc:child-cfg-{cfg}:cases"), ops.len() as u64);
+}
+
 /// The record as jet1090 writes it: with reception metadata, and — under `--stats`, which calls
-/// `serialize_config(true)` once per process — with the decoding time.  Oracle only (the model of the timed
-/// record has neither): the line parses, no key twice, every field of the message is kept, `decode_time` is
-/// shown exactly when the configuration says so.  The configuration is process-wide and write-once, so the
-/// pass with it set comes last.
+/// `serialize_config(true)` once per process — with the decoding time; under each of the three configuration states.
 fn stats_mode(out: &mut Out, rng: &mut Rng, thorough: bool) {
     let mut frames: Vec<Vec<u8>> = vec![];
     for df in [0u8, 4, 5, 11, 16, 17, 18, 19, 20, 21, 24] {
@@ -241,61 +390,22 @@ fn stats_mode(out: &mut Out, rng: &mut Rng, thorough: bool) {
             }
         }
     }
-    let record = |f: &[u8], m: &Message, k: usize| TimedMessage {
-        timestamp: 1_700_000_000.25 + k as f64,
-        frame: f.to_vec(),
-        message: Some(m.clone()),
-        metadata: (0..k % 3)
-            .map(|i| SensorMetadata {
-                system_timestamp: 1_700_000_000.5,
-                gnss_timestamp: if i == 0 { Some(12.5) } else { None },
-                nanoseconds: if i == 1 { Some(123_456_789) } else { None },
-                rssi: if i == 0 { Some(-12.5) } else { None },
-                serial: 42 + i as u64,
-                name: if i == 0 { Some("rx\"1".to_string()) } else { None },
-            })
-            .collect(),
-        decode_time: if k % 4 == 3 { None } else { Some(0.000125) },
-    };
-    for configured in [false, true] {
-        if configured {
-            static ONCE: std::sync::Once = std::sync::Once::new();
-            ONCE.call_once(|| rs1090::decode::serialize_config(true));
+    let mut lines: std::collections::BTreeMap<&str, Vec<String>> = Default::default();
+    for (i, f) in frames.iter().enumerate() {
+        if !matches!(guarded(|| Message::try_from(f.as_slice())), Some(Ok(_))) {
+            continue;
         }
-        for (k, f) in frames.iter().enumerate() {
-            let Some(Ok(m)) = guarded(|| Message::try_from(f.as_slice())) else { continue };
-            let Some(Ok(mj)) = guarded(|| serde_json::to_string(&m)) else { continue }; // judged by `dec`
-            let tm = record(f, &m, k);
-            let op = format!("stats {} {}", if configured { 1 } else { 0 }, hex(f));
-            match guarded(|| serde_json::to_string(&tm)) {
-                None => out.fail("ser-panic", &op, "TimedMessage serialisation panicked"),
-                Some(Err(e)) => out.fail("not-serialisable", &op, &format!("TimedMessage: {e}")),
-                Some(Ok(tj)) => match (serde_json::from_str::<serde_json::Value>(&tj), serde_json::from_str::<serde_json::Value>(&mj)) {
-                    (Ok(tv), Ok(v)) => {
-                        if tj.contains('\n') {
-                            out.fail("not-one-line", &op, "TimedMessage: line break in the record");
-                        }
-                        if let Err(key) = dup_key(&tj) {
-                            out.fail("duplicate-key", &op, &format!("TimedMessage: key {key} twice"));
-                        }
-                        let want = if configured { tm.decode_time } else { None };
-                        if tv.get("decode_time").and_then(|x| x.as_f64()) != want {
-                            out.fail("decode-time-shown", &op, &format!("decode_time shown as {:?}, want {want:?}", tv.get("decode_time")));
-                        }
-                        if tv.get("metadata").and_then(|x| x.as_array()).map(|a| a.len()) != Some(tm.metadata.len()) {
-                            out.fail("timed-record-differs", &op, "metadata");
-                        }
-                        if let (Some(o), Some(t)) = (v.as_object(), tv.as_object()) {
-                            if let Some((key, _)) = o.iter().find(|(key, val)| t.get(*key) != Some(val)) {
-                                out.fail("timed-record-differs", &op, &format!("key {key}"));
-                            }
-                        }
-                        out.stat(if configured { "stats-mode:configured" } else { "stats-mode:default" });
-                    }
-                    _ => out.fail("json-does-not-parse", &op, "TimedMessage"),
-                },
+        for cfg in ["u", "0", "1"] {
+            for dt in ["n", "s"] {
+                lines.entry(cfg).or_default().push(format!("timedc {cfg} {dt} {} {}", (i + (dt == "s") as usize) % 3, hex(f)));
             }
         }
+    }
+    for l in lines.remove("u").unwrap_or_default() {
+        one(out, &l);
+    }
+    for cfg in ["0", "1"] {
+        run_children(out, cfg, &lines.remove(cfg).unwrap_or_default());
     }
 }
 
